@@ -237,25 +237,124 @@ impl TxHistory {
     }
 }
 
+pub const SYS_OPS: usize = 33;
+
+impl TxHistory {
+    pub fn systematic_total(depth: u32) -> u64 {
+        (1..=depth).map(|d| (SYS_OPS as u64).pow(d)).sum()
+    }
+
+    /// the k-th operation of the compact alphabet as a concrete event on object `obj`
+    fn sys_op(k: usize, obj: usize) -> Event {
+        let tid = |b: u8| hx(&[b; 32]);
+        let txin = |b: u8, vout: u32, seq: u32| json!({"txid": tid(b), "vout": vout, "script": "", "seq": seq});
+        let sh = |flag: u8, idx: usize| json!({"op": "sighash", "obj": obj, "flag": flag, "idx": idx, "sub": "51", "value": "1000"});
+        match k {
+            0 => json!({"op": "add_input", "obj": obj, "txin": txin(0xa1, 0, 5)}),
+            1 => json!({"op": "prepend_input", "obj": obj, "txin": txin(0xa2, 1, 6)}),
+            2 => json!({"op": "insert_input", "obj": obj, "idx": 1, "txin": txin(0xa3, 2, 7)}),
+            // the starting inputs are (0x11.., vout 0, seq 1) and (0x22.., vout 1, seq 2)
+            3 => json!({"op": "set_input", "obj": obj, "idx": 0, "txin": txin(0x11, 0, 9)}),  // same outpoint, new sequence
+            4 => json!({"op": "set_input", "obj": obj, "idx": 1, "txin": txin(0x22, 3, 2)}),  // same txid and sequence, new vout
+            5 => json!({"op": "set_input", "obj": obj, "idx": 1, "txin": txin(0xa4, 1, 2)}),  // new txid, same sequence
+            6 => json!({"op": "add_inputs", "obj": obj, "txins": []}),
+            7 => json!({"op": "add_output", "obj": obj, "txout": {"value": "7", "script": "51"}}),
+            8 => json!({"op": "prepend_output", "obj": obj, "txout": {"value": "8", "script": "52"}}),
+            9 => json!({"op": "insert_output", "obj": obj, "idx": 0, "txout": {"value": "9", "script": "53"}}),
+            10 => json!({"op": "insert_output", "obj": obj, "idx": 1, "txout": {"value": "10", "script": "54"}}),
+            11 => json!({"op": "set_output", "obj": obj, "idx": 0, "txout": {"value": "11", "script": "55"}}),
+            12 => json!({"op": "set_output", "obj": obj, "idx": 1, "txout": {"value": "12", "script": "56"}}),
+            13 => json!({"op": "set_version", "obj": obj, "value": 7, "keep_returned": false}),
+            14 => json!({"op": "set_nlocktime", "obj": obj, "value": 9, "keep_returned": true}), // the returned clone becomes a fork
+            15 => sh(0x41, 0),
+            16 => sh(0x41, 1),
+            17 => sh(0x42, 0),
+            18 => sh(0x43, 0),
+            19 => sh(0x43, 1),
+            20 => sh(0xc1, 0),
+            21 => sh(0xc1, 1),
+            22 => sh(0xc3, 1),
+            23 => sh(0xc2, 0),
+            24 => sh(0x01, 0),
+            25 => sh(0x03, 1),
+            26 => sh(0x43, 2), // SINGLE past the outputs / inputs: error outcome must agree with a fresh copy
+            27 => json!({"op": "sign", "obj": obj, "flag": 0x41, "idx": 0, "sub": "51", "value": "1000", "key": format!("{:064x}", 1)}),
+            28 => json!({"op": "hash_inputs", "obj": obj, "flag": 0x41}),
+            29 => json!({"op": "fork", "obj": obj}),
+            30 => json!({"op": "restart", "obj": obj, "kind": "wire"}),
+            31 => json!({"op": "read", "obj": obj, "kind": "get_id_hex"}),
+            _ => json!({"op": "switch"}),
+        }
+    }
+
+    /// None when `index` lies beyond the enumerated prefix
+    pub fn systematic_plan(index: u64, depth: u32) -> Option<Plan> {
+        if index >= Self::systematic_total(depth) {
+            return None;
+        }
+        // which depth block, then the digits
+        let mut rest = index;
+        let mut d = 1u32;
+        loop {
+            let block = (SYS_OPS as u64).pow(d);
+            if rest < block {
+                break;
+            }
+            rest -= block;
+            d += 1;
+        }
+        let mut digits = vec![];
+        for _ in 0..d {
+            digits.push((rest % SYS_OPS as u64) as usize);
+            rest /= SYS_OPS as u64;
+        }
+        digits.reverse();
+        let mut events = vec![
+            json!({"op": "add_inputs", "obj": 0, "txins": [{"txid": hx(&[0x11; 32]), "vout": 0, "script": "", "seq": 1}, {"txid": hx(&[0x22; 32]), "vout": 1, "script": "", "seq": 2}]}),
+            json!({"op": "add_outputs", "obj": 0, "txouts": [{"value": "1", "script": "51"}, {"value": "2", "script": "52"}]}),
+        ];
+        // "switch" moves the cursor between the objects that exist at that point
+        let mut cur = 0usize;
+        let mut n_obj = 1usize;
+        for k in &digits {
+            if *k == SYS_OPS - 1 {
+                cur = (cur + 1) % n_obj;
+                continue;
+            }
+            if (*k == 29 || *k == 14) && n_obj < 4 {
+                n_obj += 1;
+            }
+            events.push(Self::sys_op(*k, cur));
+        }
+        Some(Plan { config: json!({"systematic": true, "depth": d, "digits": digits}), events })
+    }
+}
+
 impl Scenario for TxHistory {
     fn info(&self) -> ScenarioInfo {
         ScenarioInfo {
             property: "C04",
             name: "tx-history",
-            rule: "one case = one seeded history of 5-40 public API calls (14 mutators incl. add/prepend/insert/set for inputs and outputs, set_version/set_nlocktime, sighash_preimage / sign / sign_with_k with all 14 flag values, hash_inputs, read-only calls, clone forks, restarts through wire/JSON/CBOR) on 1-4 live Transaction objects; non-trivial = at least one memo slot was filled when a later mutator or restart/fork arrived (a stale window existed) ; distinct = distinct fingerprint of the (object, op-kind, flag/index class, fault-kind) sequence, payload bytes ignored",
+            rule: "the first run indices enumerate systematically every sequence up to depth 3 (quick) / 4 (thorough) over a 33-operation alphabet (every mutator, every cache-filling flag class, out-of-range SINGLE, sign, hash_inputs, fork, switch-object, restart) applied to a 2-input/2-output transaction; after that one case = one seeded history of 5-40 public API calls (14 mutators incl. add/prepend/insert/set for inputs and outputs, set_version/set_nlocktime, sighash_preimage / sign / sign_with_k with all 14 flag values, hash_inputs, read-only calls, clone forks, restarts through wire/JSON/CBOR) on 1-4 live Transaction objects; non-trivial = at least one memo slot was filled when a later mutator or restart/fork arrived (a stale window existed) ; distinct = distinct fingerprint of the (object, op-kind, flag/index class, fault-kind) sequence, payload bytes ignored",
             abstract_state: "(bucket(n_in), bucket(n_out), set of filled memo slots subset of {I,S,O}, last mutator kind, fork depth)",
             real: &["bsv::Transaction (all mutators, sighash_preimage, sign, sign_with_k, verify, hash_inputs, clone, to/from bytes, JSON, CBOR)", "bsv::TxIn", "bsv::TxOut", "bsv::Script::from_bytes", "bsv::PrivateKey", "bsv::SighashSignature"],
             stub: &["model transaction (plain Vec operations) with a 30-line reference serialiser", "history-free oracle object = Transaction::from_bytes(current serialisation)"],
             assumptions: &["restart-json/cbor events are applied only when the restored object re-serialises to the same wire bytes (coinbase inputs do not; that is C18's subject)", "API preconditions respected by the generator: insert index <= len, set index < len, 32-byte txids, well-formed scripts"],
             required_probes: &["slot_filled_then_mutated", "sighash_after_mutation", "restart_applied", "fork_applied", "flag_class_ISO", "flag_class_O_only", "set_input_with_filled_slot", "set_output_with_filled_slot"],
-            quick_runs: 40000,
-            thorough_runs: 4000000,
+            quick_runs: 70000,
+            thorough_runs: 5000000,
             rlimit_as: 8 << 30,
             alloc_abort_is_violation: true,
         }
     }
 
-    fn generate(&self, rng: &mut Rng, _tier: Tier) -> Plan {
+    fn generate(&self, rng: &mut Rng, tier: Tier, index: u64) -> Plan {
+        // ---- systematic prefix: the first run indices enumerate EVERY sequence up to a fixed depth over a compact
+        // operation alphabet (every mutator, every cache-filling flag class, fork/switch/restart); the seeded random
+        // histories follow. Depth 3 in quick (37 059 sequences), depth 4 in thorough (1 222 980).
+        if let Some(p) = Self::systematic_plan(index, if tier == Tier::Thorough { 4 } else { 3 }) {
+            return p;
+        }
         // ---- swarm configuration
         let n_events = rng.range(5, 40) as usize;
         let n_txids = rng.range(2, 5) as usize;
